@@ -5218,9 +5218,11 @@ impl M2Model {
             header.playable_animation_lookup = None;
         }
 
-        // Clear post-BC optional fields we don't serialize
-        header.blend_map_overrides = None;
-        header.texture_combiner_combos = None;
+        // Post-BC optional fields: their data is not serialized, but the parser reads the
+        // fields whenever the model flags announce them, so they are written as empty arrays
+        let (has_blend_overrides, has_combiner_combos) = self.flagged_header_fields();
+        header.blend_map_overrides = has_blend_overrides.then(|| M2Array::new(0, 0));
+        header.texture_combiner_combos = has_combiner_combos.then(|| M2Array::new(0, 0));
         header.texture_transforms = None;
 
         // Suppress unused variable warning
@@ -5296,9 +5298,9 @@ impl M2Model {
 
     /// Calculate the size of the header for this model version
     ///
-    /// This must match exactly what M2Header::write() produces. The write() method
-    /// clears optional fields (blend_map_overrides, texture_combiner_combos, texture_transforms)
-    /// so we don't include them in the size calculation.
+    /// This must match exactly what M2Header::write() produces. The write() method keeps the
+    /// optional fields announced by the model flags (as empty arrays) and clears
+    /// texture_transforms.
     fn calculate_header_size(&self) -> usize {
         let version = self.header.version().unwrap_or(M2Version::Vanilla);
 
@@ -5373,10 +5375,22 @@ impl M2Model {
         size += 2 * 4; // ribbon_emitters
         size += 2 * 4; // particle_emitters
 
-        // Note: Optional fields (blend_map_overrides, texture_combiner_combos, texture_transforms)
-        // are NOT included because write() always clears them to None before writing the header.
+        // Optional fields announced by the model flags are written as empty arrays.
+        // texture_transforms is NOT included because write() always clears it to None.
+        let (has_blend_overrides, has_combiner_combos) = self.flagged_header_fields();
+        size += 2 * 4 * (has_blend_overrides as usize + has_combiner_combos as usize);
 
         size
+    }
+
+    /// Which flag-dependent header fields M2Header::parse expects for this model:
+    /// (blend_map_overrides, texture_combiner_combos)
+    fn flagged_header_fields(&self) -> (bool, bool) {
+        let flags = self.header.flags;
+        (
+            self.header.version >= 260 && flags.bits() & 0x8000000 != 0,
+            flags.contains(M2ModelFlags::USE_TEXTURE_COMBINERS),
+        )
     }
 
     /// Validate the model structure
